@@ -313,9 +313,11 @@ add("C09",
     "ENUMERATIONS: qsort_perm (Array.qsort is a permutation, proved from its workers), mem_allRegistrations_iff / allRegistrations_registered (allRegistrations() "
     "lists exactly the bindings registered() returns), allSubscriptions_leaf / count_allSubscriptions (allSubscriptions() restricted to a key is exactly that "
     "subscriber list, order and multiplicity included). REBUILD: C09_rebuild (in every reachable world rebuild() changes no answer of registered(), no subscriber "
-    "list, and no other registry). The model is compared with both twins; registered / subscribed / allRegistrations / allSubscriptions, rebuild() and replay clones "
-    "are judged against a flat map after every step.",
-    "The specification graph is static in this model. Replaying the enumerations into an EMPTY registry (clones) is judged by the oracle; the theorem covers rebuild().",
+    "list, and no other registry). CLONES: C09_clone (ZI/Props/C09Clone.lean: in every reachable world, replaying allRegistrations() and allSubscriptions() of a "
+    "registry into an EMPTY registry gives the same registered() answers and the same subscriber lists — order and multiplicity — and touches no other registry; "
+    "cloneInto_unfold: it is literally the driver's clone operation). The model is compared with both twins; registered / subscribed / allRegistrations / "
+    "allSubscriptions, rebuild() and replay clones are judged against a flat map after every step.",
+    "The specification graph is static in this model.",
     "Lean 4 proof (nested containers refine a flat map, whole-registry read-after-write laws, history invariants, enumerations, rebuild) + differential correspondence + flat-map oracle", "6/C09")
 
 add("C06",
